@@ -24,6 +24,8 @@ RULE = ('cases = request paths built from the tokens {names present in the tree,
         'Exhaustive part: quick = sampled paths of <= 3 tokens, thorough = ALL paths of <= 5 tokens over {/ . .. %2e ? a.txt sub} '
         '(19 608 paths, direct call, and through the whole handler when they begin with a single "/") and all of <= 4 tokens over two '
         'further 7-token alphabets ({/ . .. ? secret.txt static _evil}, {/ .. // %2e%2e a.txt static_evil x}). '
+        'Size classes: patterned files of 1 B, 64 KiB, 128 KiB - 1 / 128 KiB / 128 KiB + 1, 256 KiB and 1 MiB + 7 are served compressed and raw '
+        '(min_compression_length below, at and above the file length), compared with the model through bpat descriptors and checked by the oracle. '
         'A case is non-trivial when a file was served (200) or when the request named an existing regular file '
         '(inside or outside the root) and was refused; distinct = distinct (root, path, min_compression_length, route) inputs')
 TRUSTED = ['posixpath.normpath, str.split/rstrip/startswith as transcribed in Net/Static.v (compared with CPython on every run)',
